@@ -79,6 +79,18 @@ def make_body(shape, quat_key, perm_k, free_verts=None):
             total = total + m["A"]
         H.claim_eq("surface_area", poly.surface_area, total)
         H.claim_eq("get_face_area(total)", poly.get_face_area("total"), total)
+        # list form of get_face_area and the edge getters
+        two = poly.get_face_area([0, len(got) - 1])
+        H.claim_eq("get_face_area([0,last])[0]", two[0], areas[0])
+        H.claim_eq("get_face_area([0,last])[1]", two[1], areas[len(got) - 1])
+        E = [tuple(int(x) for x in e) for e in poly.edges]
+        ev, el = poly.edge_vectors, poly.edge_lengths
+        H.claim("edge_count", len(E) == int(poly.num_edges) and len(ev) == len(E))
+        for k_, (a_, b_) in enumerate(E):
+            d_ = O.sub(inp[b_], inp[a_])
+            H.claim_all_eq("edge_vector[%d,%d]" % (a_, b_), ev[k_], d_)
+            H.claim_eq("edge_length^2[%d,%d]" % (a_, b_), el[k_] * el[k_], O.dot(d_, d_))
+        H.claim("num_vertices/num_faces", poly.num_vertices == n and poly.num_faces == len(ofac))
 
     return body
 
